@@ -21,8 +21,9 @@ pub fn gen_transport(r: &mut Rng) -> Vec<Tree> {
     let key = r.bytes(32);
     let budget = *r.pick(&[3000u64, 60000]);
     ops.push(l(vec![n(200u8), n(t0), n(max), n(protocol), l(vec![n(1u8), b(&key)]), n(budget), cfg_tree(&cfg), cfg_tree(&cfg)]));
-    let nclients = *r.pick(&[1u64, 2, 2, 3]);
-    let ids = [11u64, if r.chance(1, 6) { 11 } else { 22 }, 33];
+    let focus: Option<usize> = if r.chance(1, 3) { Some(*r.pick(&[18usize, 19, 20, 20, 21, 12, 13, 14])) } else { None };
+    let nclients = if focus == Some(21) { 3 } else { *r.pick(&[1u64, 2, 2, 3]) };
+    let ids = [11u64, if focus == Some(21) || r.chance(1, 6) { 11 } else { 22 }, 33];
     let mut tk = 0u64;
     let mut token = |r: &mut Rng, ops: &mut Vec<Tree>, k: u64, now: u64| -> u64 {
         let t = tk;
@@ -41,7 +42,6 @@ pub fn gen_transport(r: &mut Rng) -> Vec<Tree> {
     let mut pl = Payloads::new();
     let sizes = [0usize, 1, 50, 1199, 1200, 1201, 2500, 4000];
     let steps = r.range(20, 70);
-    let focus: Option<usize> = if r.chance(1, 3) { Some(*r.pick(&[18usize, 19, 20, 20, 12, 13, 14])) } else { None };
     for step in 0..steps {
         let k = r.below(nclients);
         let id = ids[k as usize];
@@ -49,7 +49,7 @@ pub fn gen_transport(r: &mut Rng) -> Vec<Tree> {
         let mutk = |r: &mut Rng| -> (u64, u64, u64) {
             if r.chance(4, 5) { (0, 0, 0) } else { (r.range(1, 4), r.below(11000), r.below(256)) }
         };
-        let w: [u32; 22] = [18, 5, 5, 10, 10, 5, 5, 8, 8, 6, 6, 5, 3, 3, 2, 2, 1, 2, 3, 2, 2, 2];
+        let w: [u32; 23] = [18, 5, 5, 10, 10, 5, 5, 8, 8, 6, 6, 5, 3, 3, 2, 2, 1, 2, 3, 2, 2, 2, 0];
         let case = match focus {
             Some(f) if step == 4 || step == 15 => f,
             _ => r.weighted(&w),
@@ -125,6 +125,42 @@ pub fn gen_transport(r: &mut Rng) -> Vec<Tree> {
             15 => ops.push(l(vec![n(226u8), n(id)])),
             16 => ops.push(l(vec![n(210u8)])),
             17 => ops.push(l(vec![n(229u8), n(*r.pick(&[1u64, 2, 4]))])),
+            21 => {
+                // two sessions racing for one client id across a hole in the slot table (clients 0 and 1 share the id, client 2
+                // takes the first slot and leaves between the two responses)
+                if nclients == 3 && ids[0] == ids[1] && step < 8 {
+                    let srv = |ops: &mut Vec<Tree>| ops.push(l(vec![n(205u8), n(16 * MS)]));
+                    ops.push(l(vec![n(229u8), n(4u8)]));
+                    ops.push(l(vec![n(260u16), n(2u8), n(4u8), n(250 * MS)]));
+                    for j in [0u64, 1] {
+                        ops.push(l(vec![n(203u8), n(j), n(250 * MS)]));
+                        ops.push(l(vec![n(250u8), n(j), n(0u8), n(0u8), n(0u8), n(0u8)]));
+                        srv(&mut ops);
+                    }
+                    for j in [0u64, 1] {
+                        if j == 1 {
+                            ops.push(l(vec![n(209u8), n(2u8)]));
+                            ops.push(l(vec![n(250u8), n(2u8), n(0u8), n(0u8), n(0u8), n(0u8)]));
+                            srv(&mut ops);
+                        }
+                        ops.push(l(vec![n(251u8), n(j), n(0u8), n(0u8), n(0u8), n(0u8)]));
+                        ops.push(l(vec![n(203u8), n(j), n(250 * MS)]));
+                        ops.push(l(vec![n(250u8), n(j), n(0u8), n(0u8), n(0u8), n(0u8)]));
+                        srv(&mut ops);
+                    }
+                    ops.push(l(vec![n(227u8)]));
+                    ops.push(l(vec![n(233u8)]));
+                    ops.push(l(vec![n(222u8), n(ids[0]), n(2u8), b(&pl.make(r, 40))]));
+                    for j in [0u64, 1] {
+                        ops.push(l(vec![n(220u8), n(j), n(2u8), b(&pl.make(r, 30))]));
+                        ops.push(l(vec![n(260u16), n(j), n(2u8), n(250 * MS)]));
+                        ops.push(l(vec![n(221u8), n(j), n(2u8)]));
+                    }
+                    ops.push(l(vec![n(224u8), n(ids[0]), n(2u8)]));
+                    ops.push(l(vec![n(224u8), n(ids[0]), n(2u8)]));
+                    ops.push(l(vec![n(225u8)]));
+                }
+            }
             20 => {
                 // a hole in the server's slot table: everybody connects, the first one leaves, then the last one; the ones
                 // in between must keep their sessions, their traffic and their place in both tables
